@@ -113,4 +113,30 @@ theorem roundtrip_pd256 (vr vi lo hi x y : Reg) (w : Nat) (hw : w < 8) :
     (avx2.h_arrange_for_store_m256d x y (avx2.h_arrange_from_load_m256d vr vi lo hi).1 (avx2.h_arrange_from_load_m256d vr vi lo hi).2).2 w = hi w := by
   interval_cases w <;> simp [simd, avx2.h_arrange_for_store_m256d, avx2.h_arrange_from_load_m256d]
 
+-- ------------------------------------------------------------------------------------------------ backend/norm.h
+/-- `_norm<float,4>`: square root of the sum of squares, association ((a0²+a1²)+(a2²+a3²)) -/
+theorem norm_float_4 (fo : FOps) (a : Reg) :
+    avx2.h_norm_float_4 fo a = fo.sqrt32 (fo.add32 (fo.add32 (fo.mul32 (a 0) (a 0)) (fo.mul32 (a 1) (a 1))) (fo.add32 (fo.mul32 (a 2) (a 2)) (fo.mul32 (a 3) (a 3)))) := by
+  simp [simd, avx2.h_norm_float_4, avx2.h_add_ps]
+theorem norm_double_4 (fo : FOps) (a : Reg) :
+    avx2.h_norm_double_4 fo a = fo.sqrt64 (fo.add64 (fo.add64 (fo.mul64 (lane64 a 2) (lane64 a 2)) (fo.mul64 (lane64 a 3) (lane64 a 3))) (fo.add64 (fo.mul64 (lane64 a 0) (lane64 a 0)) (fo.mul64 (lane64 a 1) (lane64 a 1)))) := by
+  simp [simd, avx2.h_norm_double_4, avx2.h_add_pd_m256d, lane64]
+/-- the sum-of-squares tree of an 8-lane register as computed by `_add_ps(__m256)` -/
+def sq8 (fo : FOps) (a : Reg) : BitVec 32 :=
+  fo.add32 (fo.add32 (fo.add32 (fo.mul32 (a 0) (a 0)) (fo.mul32 (a 1) (a 1))) (fo.add32 (fo.mul32 (a 2) (a 2)) (fo.mul32 (a 3) (a 3))))
+           (fo.add32 (fo.add32 (fo.mul32 (a 4) (a 4)) (fo.mul32 (a 5) (a 5))) (fo.add32 (fo.mul32 (a 6) (a 6)) (fo.mul32 (a 7) (a 7))))
+/-- `_norm<float,9>`: eight elements through the 256-bit tree, the ninth loaded alone (`_mm_load_ss`: element 8 and three
+    zero lanes — exactly nine elements are read), the zero lanes squared and added as the code does -/
+theorem norm_float_9 (fo : FOps) (a : Reg) :
+    avx2.h_norm_float_9 fo a = fo.sqrt32 (fo.add32 (sq8 fo a)
+      (fo.add32 (fo.add32 (fo.mul32 (a 8) (a 8)) (fo.mul32 0#32 0#32)) (fo.add32 (fo.mul32 0#32 0#32) (fo.mul32 0#32 0#32)))) := by
+  simp [simd, sq8, avx2.h_norm_float_9, avx2.h_add_ps, avx2.h_add_ps_m256]
+/-- with `0*0 = 0` and `x + 0 = x` this is the square root of the sum of the nine squares -/
+theorem norm_float_9_sum (fo : FOps) (h0 : fo.mul32 0#32 0#32 = 0#32) (hadd : ∀ x, fo.add32 x 0#32 = x) (a : Reg) :
+    avx2.h_norm_float_9 fo a = fo.sqrt32 (fo.add32 (sq8 fo a) (fo.mul32 (a 8) (a 8))) := by
+  rw [norm_float_9]; simp [h0, hadd]
+example : ∃ fo : FOps, fo.mul32 0#32 0#32 = 0#32 ∧ ∀ x, fo.add32 x 0#32 = x :=
+  ⟨⟨(· + ·), (· - ·), (· * ·), (· / ·), (fun a _ => a), (fun a _ => a), id, (fun a b c => a * b + c),
+    (· + ·), (· - ·), (· * ·), (· / ·), (fun a _ => a), (fun a _ => a), id, (fun a b c => a * b + c)⟩, by simp, by simp⟩
+
 end Fastor.C08K
